@@ -15,8 +15,8 @@ QUERIES = [
 for nk in (1, 2, 3):
     QUERIES.append(q("pubkey_combine_n%d" % nk, "harness_pubkey_combine", "pubkey_combine of %d keys: running sum hand-over, infinity rejection (cancelling lists), zeroing" % nk, defs=["NK=%d" % nk]))
 T = "C04/h_sort.c"
-for ns, tier in ((0, "quick"), (1, "quick"), (2, "quick"), (3, "quick"), (4, "quick"), (5, "quick"), (6, "thorough"), (7, "thorough")):
-    QUERIES.append(Query("hsort_full_n%d" % ns, T, "harness_sort_full", defs=["NS=%d" % ns], unwind=max(12, ns + 3), timeout=1500, tier=tier,
+for ns, tier in ((0, "quick"), (1, "quick"), (2, "quick"), (3, "quick"), (4, "quick"), (5, "quick"), (6, "thorough")):
+    QUERIES.append(Query("hsort_full_n%d" % ns, T, "harness_sort_full", defs=["NS=%d" % ns], unwind=max(12, ns + 3), timeout=2400, tier=tier, mem_gb=(16 if ns >= 6 else 3),
                          desc="real secp256k1_hsort on %d pointer-sized symbolic elements: sorted permutation, nothing beyond n touched" % ns, bounds="n = %d, all element values" % ns))
 QUERIES.append(Query("hsort_skeleton_le300", T, "harness_sort_skeleton", defs=["SKMAX=300", "SKELETON"], unwind=305, timeout=900,
                      desc="iteration space of secp256k1_hsort for every count 0..300 with heap_down/heap_swap recorded: exactly the textbook build + extract sequence (catches caps such as 'first 40 keys only')",
@@ -26,9 +26,9 @@ QUERIES.append(Query("pubkey_sort_callsite", T, "harness_sort_callsite", defs=["
 LEVEL_TEXT = ("Bounded model checking of the real key-derivation API at real width: every documented failure case is shown exact for all 256-bit keys/tweaks, and each public operation is shown to hand exactly "
               "the corresponding scalar/point to the curve layer (free results), so secret/public commutation reduces to the group law (C05).")
 ASSUMPTIONS = ["curve layer (ecmult, ecmult_gen, gej_add_ge) returns free points; commutation itself then follows from the group law, which is not encoded",
-               "pubkey / keypair objects hold canonical coordinates (what the library stores)", "scalar mul uninterpreted", "sorting: full sorted-permutation proof for n <= 5 (thorough 7); for longer lists the iteration skeleton (all counts <= 300) is proved and the sift-down step is the same code as in the small instances: the heapsort invariant argument joining them is reasoning outside the solver"]
+               "pubkey / keypair objects hold canonical coordinates (what the library stores)", "scalar mul uninterpreted", "sorting: full sorted-permutation proof for n <= 5 (thorough 6); for longer lists the iteration skeleton (all counts <= 300) is proved and the sift-down step is the same code as in the small instances: the heapsort invariant argument joining them is reasoning outside the solver"]
 
 MANIFEST_ENTRY = {
-    "text": "Bounded model checking of the real key-derivation API at real width: exact failure sets and outputs of seckey/pubkey negate, tweak_add, tweak_mul, create, combine (1..3 keys), x-only conversion, Taproot tweak, tweak_add_check and keypair tweak for all keys/tweaks (incl. tweak=-key, >=n, zero), with the scalar/point handed to the curve layer asserted; pubkey_cmp == lexicographic order; hsort: sorted permutation for n<=5 (thorough 7), iteration skeleton for every count <=300, call site passes the whole list.",
+    "text": "Bounded model checking of the real key-derivation API at real width: exact failure sets and outputs of seckey/pubkey negate, tweak_add, tweak_mul, create, combine (1..3 keys), x-only conversion, Taproot tweak, tweak_add_check and keypair tweak for all keys/tweaks (incl. tweak=-key, >=n, zero), with the scalar/point handed to the curve layer asserted; pubkey_cmp == lexicographic order; hsort: sorted permutation for n<=5 (thorough 6), iteration skeleton for every count <=300, call site passes the whole list.",
     "note": "Secret/public commutation is reduced to the group law (curve layer returns free points; C05 clauses not encodable); long-list sorting rests on skeleton + small-instance proofs joined by the textbook heapsort invariant (reasoning outside the solver); mixed tweak chains follow by induction from the single-step results. 64-bit limbs only.",
 }
